@@ -115,6 +115,7 @@ def run_property(a, seed, run_contracts):
     solver_s = 0.0
     samples = []
     bounded_cases = 0
+    skipped_contracts = set()
     bounded_samples = []
     concolic_agree = 0
     paths_total = 0
@@ -129,6 +130,8 @@ def run_property(a, seed, run_contracts):
             undecided.append('%s: timed out after %ss' % (n, r['timeout']))
             continue
         symr = r.get('symbolic') or {'clauses': {}, 'errors': [], 'paths': 0}
+        if symr.get('skipped'):
+            skipped_contracts.add(n)
         solver_s += symr.get('solver_s', 0.0)
         paths_total += symr.get('paths', 0)
         samples.extend(symr.get('samples', [])[:2])
@@ -231,6 +234,9 @@ def run_property(a, seed, run_contracts):
                     continue
                 c = clauses.get(cid)
                 if c is None:
+                    owner = ent.get('contract')
+                    if owner in skipped_contracts:
+                        continue      # its contract already failed concretely on the real code (reported above)
                     undecided.append('ledger obligation %s was not generated in this run' % cid)
                     continue
                 if ent.get('known_finding'):
@@ -279,6 +285,7 @@ def run_property(a, seed, run_contracts):
             else:
                 e = {'expect': prev.get('expect') if prev.get('expect') == 'known-fail' else 'UNPROVED'}
             e['function'] = ';'.join(vc.CONTRACTS[c['contract']].functions[:3])
+            e['contract'] = c['contract']
             ent[cid] = e
         if not a.only:
             ledger_all[prop] = ent
